@@ -52,6 +52,14 @@ Proof. intros x H. unfold to_int64. destruct (x <? 2 ^ 63) eqn:E; lia. Qed.
 Lemma W_256 : 256 ^ 32 = W.
 Proof. reflexivity. Qed.
 
+(* the bound-checked byte_at of OpsSpec.v agrees with the unchecked form: nth beyond the end is 0 *)
+Lemma byte_at_old : forall d i, byte_at d i = if i <? 0 then 0 else nth (Z.to_nat i) d 0.
+Proof.
+  intros d i. unfold byte_at. destruct (i <? 0) eqn:E; cbn [orb]; [reflexivity|].
+  destruct (Z.of_nat (length d) <=? i) eqn:E2; [|reflexivity].
+  symmetry. apply nth_overflow. lia.
+Qed.
+
 (* ------------------------------------------------------------------ 1. stack *)
 
 Theorem op_DUP_spec : forall n st, (1 <= n <= 16)%nat -> (n <= length st)%nat ->
@@ -132,7 +140,7 @@ Proof.
   - rewrite Hlen. unfold spec_data. rewrite map_length, seq_length. reflexivity.
   - intros k Hk. rewrite Hlen in Hk. rewrite Hnth.
     unfold spec_data. rewrite nth_map_seq by exact Hk.
-    unfold byte_at. destruct (start + Z.of_nat k <? 0) eqn:E; [lia|]. clear E.
+    rewrite byte_at_old. destruct (start + Z.of_nat k <? 0) eqn:E; [lia|]. clear E.
     unfold sl, slice. rewrite nth_firstn', nth_skipn'.
     destruct (k <? Z.to_nat (e - s))%nat eqn:E.
     + apply Nat.ltb_lt in E. f_equal. unfold e, s, blen in *. lia.
@@ -186,7 +194,7 @@ Qed.
 
 Lemma byte_at_range : forall d i, bytesval d -> 0 <= byte_at d i < 256.
 Proof.
-  intros d i H. unfold byte_at. destruct (i <? 0); [lia|].
+  intros d i H. rewrite byte_at_old. destruct (i <? 0); [lia|].
   destruct (lt_dec (Z.to_nat i) (length d)) as [L|L].
   - unfold bytesval in H. rewrite Forall_nth in H. apply H; exact L.
   - rewrite nth_overflow by lia. lia.
@@ -427,7 +435,7 @@ Proof.
   apply nth_ext with (d := 0) (d' := 0).
   - apply spec_data_length.
   - intros k Hk. rewrite spec_data_length in Hk. unfold spec_data.
-    rewrite nth_map_seq by exact Hk. unfold byte_at.
+    rewrite nth_map_seq by exact Hk. rewrite byte_at_old.
     destruct (off + Z.of_nat k <? 0) eqn:E; [lia|]. clear E.
     unfold spec_mem_write. unfold blen in *.
     rewrite nth_map_seq by lia. cbv beta zeta.
